@@ -36,6 +36,7 @@ MC_AF_none == {}
 MC_AF_c05 == {"ifh-creds", "create-dir", "create-stale-attr"}
 MC_AF_c18 == {"seal-holes"}
 MC_AF_c18fd == {"fd-close"}
+MC_AF_c18r == {"seeded:destroy-unseals"}
 MC_AF_c06 == {"seeded:nofollow"}
 MC_Names1 == {"a"}
 MC_Tree_plain == << <<"a", "reg", <<97, 98>>, 420, 0>>, <<"d", "dir", "", 493, 0>> >>
